@@ -91,7 +91,7 @@ class KeyHandler(HTMLHandlerBase):
         if kpk:
             model = models.Key.get(pk=kpk)
             if model is None:
-                return flask.response(f'Unknown key {kpk}', 404)
+                return flask.make_response(f'Unknown key {kpk}', 404)
 
         if model is None:
             model = models.Key()
